@@ -15,13 +15,27 @@ RULE = (
     "epsilon in [-1,1] constant/spatial/time-dependent, dt_init over 1e-6..10, pinned zeros, strong drives, screening, "
     "injected refusals excluded), including that its epsilon, gamma, u and covariant Laplacian are the declared ones for the time of the step; a run is non-trivial when at least 3 calls were checked; distinct = distinct scenario digests"
 )
-LIFECYCLES = {"p_prior": 0.07, "p_metres": 0.08, "p_reoriented": 0.04}  # shared object life cycles (scen.add_lifecycles) with their default rates
+LIFECYCLES = {"p_prior": 0.07, "p_metres": 0.08, "p_reoriented": 0.04, "p_guest": 0.15}  # shared object life cycles (scen.add_lifecycles) with their default rates
 BUDGET = {"quick": {"runs": 700, "chunk": 10}, "thorough": {"runs": 120000, "chunk": 20}}
 COMPONENTS = {"real": ["TDGLSolver.solve_for_psi_squared and everything that feeds it (update, operators, drives)"], "stub": ["wall clock", "validator RNG (seeded)"]}
 ASSUMPTIONS = ["The quantifier of C02 is the whole per-site input space; this check decides the property on the states reached by simulated runs only."]
 
 
 def gen(seed, idx, tier):
+    scn = _gen(seed, idx, tier)
+    rg = substream(seed, idx, "c02-guest-inside-psi-update")
+    if rg.random() < 0.12 and not scn.get("guests") and not scn.get("seed_phase") and not scn.get("reload_phase"):
+        # another simulation of the same device (other field / currents / disorder) does its psi updates INSIDE a
+        # psi update of the run: at the n-th line executed within the update of psi, whatever helper it belongs to
+        steps_ = max(1, min(int(scn["meta"].get("steps", 5)), 8))
+        what = {"mode": "other-field", "field": {"kind": "const", "B": scen.r3(rg.choice([0.4, -0.9, 1.5]) * scen.FIELD_FACTOR[scn["options"].get("field_units", "mT")])}, "steps": rg.choice([1, 2]), "save_every": 100, "epsilon": {"kind": "const", "v": rg.choice([0.3, 0.8, -0.5])}}
+        if scn["drive"].get("currents") is not None:
+            what["currents_scale"] = rg.choice([3.5, -1.0, 0.3])
+        scn["guests"] = [{"at": {"point": "line", "stage": "S", "func": "*", "within": "psi", "ordinal": rg.randint(2, 22) + 24 * rg.randint(0, steps_ - 1)}, "what": what}]
+    return scn
+
+
+def _gen(seed, idx, tier):
     rnd = substream(seed, idx, "c02")
     flavour = rnd.choice(["generic", "generic", "strong", "tinydt", "bigdt", "screen", "randinit", "randinit"])
     p = dict(refuse=0.2, steps=(3, 20))
